@@ -18,6 +18,7 @@ import gen_common as G
 import gen_checks as GC
 import gen_main
 import gen_main2
+import gen_clear2
 import gen_market
 import gen_asset
 
@@ -129,10 +130,14 @@ def run(ctx):
                        'keeps that constant as a summand: the identity is stated up to that constant 0']
     # booking-group models with theorems for ALL zones (coq/GenMarket, coq/GenAsset), each with its own
     # state correspondence and oracle
-    out.proof = common.proof_status_many([(FAMILY, PROPFILE)] + gen_market.PROOFS + gen_asset.PROOFS + gen_main2.PROOFS)
+    out.proof = common.proof_status_many([(FAMILY, PROPFILE)] + gen_market.PROOFS + gen_asset.PROOFS + gen_main2.PROOFS + gen_clear2.PROOFS)
     gen_market.extra(ctx, out)
     gen_asset.extra(ctx, out)
-    # (the whole-pipeline correspondence of coq/GenMain runs in the C01 and C05 checks; here only its theorems are re-checked)
+    # (the whole-pipeline correspondence of coq/GenMain2 runs in the C01, C05 and C07 checks; here its theorems are re-checked)
+    # multi-currency clearing theorems (coq/GenClear2) for ALL programs of Main2.build2: the lists of demanders / suppliers /
+    # holders the theorems name are compared with the object model, the side conditions are evaluated, and the identities are
+    # tested on the emitted rows
+    gen_clear2.extra(ctx, out)
     return out
 
 
@@ -144,6 +149,8 @@ def replay(path):
         return gen_main.replay(obj)
     if kind == 'main2':
         return gen_main2.replay(obj)
+    if kind == 'clear2':
+        return gen_clear2.replay(obj)
     if kind == 'market':
         return gen_market.replay(obj)
     if kind == 'asset':
